@@ -129,12 +129,23 @@ def parseParamD (s : String) : Option (Ty × Core3.Ident) :=
 def parseFuncD (rt nm ps bs : String) : Option Func :=
   let params := if ps == "-" then some [] else (ps.splitOn "|").mapM parseParamD
   let blocks := if bs == "-" then some [] else (bs.splitOn "/").mapM parseBlockD
-  -- the name field may carry the header keywords: `<hexname>~<i>,<i>…` (positions in `kLead`, in the order written)
-  let (nmHex, lead) := match nm.splitOn "~" with
-    | [n, l] => (n, (l.splitOn ",").filterMap String.toNat?)
-    | _ => (nm, [])
+  -- the name field may carry the header keywords and the clauses behind the parameter list: `<hexname>~<i>,<i>…~<clauses>` (positions in `kLead`, in the order
+  -- written; clauses `u<i>`, `a<n>` (addrspace), `k<i>,<i>…` (attributes), `s<hex>` (section), `p<hex>` (partition), `l<n>` (align), `g<hex>` (gc), joined by `;`)
+  let parts := nm.splitOn "~"
+  let nmHex := parts.headD ""
+  let lead := ((parts.getD 1 "").splitOn ",").filterMap String.toNat?
+  let tail : HTail := ((parts.getD 2 "").splitOn ";").foldl (fun t c =>
+    match c.toList with
+    | 'u' :: r => { t with unnamed := (String.ofList r).toNat? }
+    | 'a' :: r => { t with addrspace := ((String.ofList r).toNat?).getD 0 }
+    | 'k' :: r => { t with attrs := ((String.ofList r).splitOn ",").filterMap String.toNat? }
+    | 's' :: r => { t with sect := argHex (String.ofList r) }
+    | 'p' :: r => { t with partition := argHex (String.ofList r) }
+    | 'l' :: r => { t with align := ((String.ofList r).toNat?).getD 0 }
+    | 'g' :: r => { t with gc := argHex (String.ofList r) }
+    | _ => t) {}
   match tyArg rt, params, blocks with
-  | some rt, some ps, some bs => some ⟨rt, argHex nmHex, ps, bs, lead⟩
+  | some rt, some ps, some bs => some ⟨rt, argHex nmHex, ps, bs, lead, tail⟩
   | _, _, _ => none
 
 def splitLines (s : Bytes) : List Bytes :=
